@@ -124,6 +124,16 @@ class AbstractWrappingDispatcher(AbstractDispatcher):
             i = self.active[key].index(old_func)
             self.active[key][i] = func
 
+    def _value_func(self, func, *args):
+        # An exception raised by a responder's function must not prevent
+        # the evaluation of the remaining responders of the same message.
+        try:
+            fn.value(func, *args)
+        except Exception:
+            _logger.error(
+                f'exception in {type(self).__name__} responder function',
+                exc_info=True)
+
     @abstractmethod
     def wrap_func(self, func_proxy):
         pass
@@ -371,7 +381,7 @@ class OscMessageDispatcher(AbstractWrappingDispatcher):
     def __call__(self, msg, time, addr, recv_port):
         if msg[0] in self.active:
             for func in self.active[msg[0]][:]:
-                fn.value(func, msg, time, addr, recv_port)
+                self._value_func(func, msg, time, addr, recv_port)
 
     def register(self):
         _libsc3.main.add_osc_recv_func(self) # thisProcess.addOSCRecvFunc(this)
@@ -391,7 +401,7 @@ class OscMessagePatternDispatcher(OscMessageDispatcher):
         for key, funcs in self.active.copy().items():
             if _match_osc_address_pattern(pattern, key):
                 for func in funcs[:]:
-                    fn.value(func, msg, time, addr, recv_port)
+                    self._value_func(func, msg, time, addr, recv_port)
 
     def type_key(self):
         return 'OSC matched'
@@ -617,7 +627,7 @@ class MidiMessageDispatcher(AbstractWrappingDispatcher):
         mt = data['type']
         if mt in self.active:
             for func in self.active[mt][:]:
-                fn.value(func, data, midi_in)
+                self._value_func(func, data, midi_in)
 
     def register(self):
         _libsc3.main._midi_interface.add_recv_func(self)
